@@ -193,7 +193,7 @@ def shortest_torus_path(source, destination, width, height):
                   (max(w-dx, h-dy), (-(w-dx), -(h-dy), 0))]  # Wrap X and Y
 
     # Select a minimal approach at random
-    _, vector = min(approaches, key=(lambda a: a[0]+random.random()))
+    _, vector = min(approaches, key=(lambda a: (a[0], random.random())))
     x, y, z = minimise_xyz(vector)
 
     # Transform to include a random number of 'spirals' on Z axis where
